@@ -9,7 +9,7 @@ Static clauses (DESIGN.md §5 C14):
     Transaction::write after write_view / write_operation / write_index (each `?`-checked)
  e. readers: get_op_heads returns Err rather than an empty list; resolve re-reads under the lock
 """
-from jjv.lib import (bool_edges, callee_reaches, find_try_edge, impls_of, name_matches, norm, ok_exit_nodes, show,
+from jjv.lib import (bool_edges, callee_reaches, find_ok_nodes, find_try_edge, impls_of, name_matches, norm, ok_exit_nodes, show,
                      strip, term_calls)
 
 UPDATE = "jj_lib::op_heads_store::OpHeadsStore::update_op_heads"
@@ -82,7 +82,9 @@ def rule_a(ctx):
         for r in removers:
             b = r.body
             same = [a for a in adders if a.body is b]
-            edges = [e for e in (find_try_edge(F, b, a) for a in same) if e is not None]
+            edges = set()
+            for a in same:
+                edges |= find_ok_nodes(F, b, a)
             plain = [a.bb for a in same]
             ok_order = b.set_dominated(r.bb, set(plain)) if plain else False
             ok_checked = b.set_dominated(r.bb, set(edges)) if edges else False
@@ -241,7 +243,9 @@ def rule_d(ctx):
             ws = b.calls_to(callee)
             if not ctx.anchor("C14.d", f"{callee} in Transaction::write", ws, 1):
                 continue
-            edges = [e for e in (find_try_edge(F, b, w) for w in ws) if e is not None]
+            edges = set()
+            for w in ws:
+                edges |= find_ok_nodes(F, b, w)
             ok = bool(edges) and b.set_dominated(c.bb, set(edges))
             p = None if ok else b.path_avoiding([0], [c.bb], set(edges))
             ctx.ob("C14.d/stored-before-publishable", callee, ok,
